@@ -47,6 +47,8 @@ type FuncContract struct {
 	File        string
 	Line        int
 	External    bool // from a .contracts file (assumed, trusted)
+	// Implementing: template contract "Type.*", expanded to every method of this interface
+	Implementing string
 }
 
 type SpecFunc struct {
@@ -217,6 +219,10 @@ func (cs *Contracts) LoadFile(path string, pkgPath string, external bool) {
 						fc.With[strings.TrimSpace(kv[0])] = ps.typeExpr()
 					}()
 				}
+				txt = txt[:j]
+			}
+			if j := strings.Index(txt, " implementing "); j >= 0 {
+				fc.Implementing = strings.TrimSpace(txt[j+14:])
 				txt = txt[:j]
 			}
 			fc.Name = strings.TrimSpace(txt)
